@@ -14,8 +14,8 @@ use crate::{types::CircuitValue, utils::F, Error, Operation};
 /// This function results in an error if the two inputs are not of the same type
 /// or if their type does not support equality assertions.
 //
-// NB: The off-circuit version of this function is derived automatically and a
-// bit more general (e.g. it works on `JubjubScalar`s).
+// NB: The off-circuit version of this function is derived automatically (after
+// the same type check, see `parser::offcircuit::check_comparable`).
 pub fn assert_equal_incircuit(
     std_lib: &ZkStdLib,
     layouter: &mut impl Layouter<F>,
